@@ -1,2 +1,572 @@
-From Emmet Require Import lib.Base model.Math.
-Lemma placeholder_true : True. Proof. exact I. Qed.
+(* C19: the math-expression model refines the arithmetic spec (MathSpec.v).
+
+   Part 1  trees, their token code at nesting depth d, postfix code; the operator-ordering
+           lemma (order_tokens on the code of a tree yields its postfix code)
+   Part 2  the stack evaluator on postfix code computes the tree's value (generic numbers)
+   Part 3  regrouping a documented tree into the tree the priorities denote keeps tokens and value
+   Part 4  the parser state machine over tokens
+   Part 5  characters to tokens
+   Part 6  composition: evaluate_correct
+   Part 7  converse: what the parser accepts is well-formed; errors are only the documented ones *)
+From Coq Require Import ZArith List Bool Lia ZifyBool QArith Qcanon Qround.
+From Emmet Require Import lib.Base model.Math proofs.MathSpec.
+Local Open Scope nat_scope.
+
+(* ================================================================== Part 1 *)
+(* priority offsets of op2(): + - 0, * 1, / \ 2; of op1('-'): 2 *)
+Definition baseN (o : op2) : nat := match o with Add | Sub => 0 | Mul => 1 | Div | IDiv => 2 end.
+Definition prioZ (d : nat) (k : nat) : Z := (10 * Z.of_nat d + Z.of_nat k)%Z.
+Definition rop2 (o : op2) (d : nat) : rtok := ROp2 (op_char o) (prioZ d (baseN o)).
+Definition rneg (d : nat) : rtok := ROp1 c_dash (prioZ d 2).
+
+Lemma mk_op2_rop2 o d : mk_op2 (op_char o) (10 * Z.of_nat d)%Z = rop2 o d.
+Proof. destruct o; unfold mk_op2, rop2, prioZ; cbn; f_equal; lia. Qed.
+Lemma mk_op1_rneg d : mk_op1 c_dash (10 * Z.of_nat d)%Z = rneg d.
+Proof. reflexivity. Qed.
+
+(* the tokens parse() collects for a tree standing at nesting depth d *)
+Fixpoint flat (d : nat) (e : expr) : list rtok :=
+  match e with
+  | Num v => [RNum v]
+  | Pos e => flat d e
+  | Neg e => rneg d :: flat d e
+  | Bin o l r => flat d l ++ rop2 o d :: flat d r
+  | Paren e => flat (S d) e
+  end.
+
+Fixpoint postfix (d : nat) (e : expr) : list rtok :=
+  match e with
+  | Num v => [RNum v]
+  | Pos e => postfix d e
+  | Neg e => postfix d e ++ [rneg d]
+  | Bin o l r => postfix d l ++ postfix d r ++ [rop2 o d]
+  | Paren e => postfix (S d) e
+  end.
+
+(* the grammar the priorities denote: level 0 additive, 1 '*', 2 '/' and '\', 3 prefix/primary *)
+Fixpoint wfL (L : nat) (e : expr) : Prop :=
+  match e with
+  | Num _ => True
+  | Pos e => wfL 3 e
+  | Neg e => wfL 3 e
+  | Paren e => wfL 0 e
+  | Bin o l r => L <= baseN o /\ wfL (baseN o) l /\ wfL (S (baseN o)) r
+  end.
+
+Lemma wfL_weaken e : forall L L', L' <= L -> wfL L e -> wfL L' e.
+Proof. destruct e; cbn; intros; try assumption. destruct H0 as (A & B & C). repeat split; try assumption; lia. Qed.
+
+(* P = what has reached the output when the tree has been read, K = operators still stacked *)
+Fixpoint PK (d : nat) (e : expr) : list rtok * list rtok :=
+  match e with
+  | Num v => ([RNum v], [])
+  | Pos e => PK d e
+  | Neg e => let (p, k) := PK d e in (p, k ++ [rneg d])
+  | Bin o l r =>
+      let (pl, kl) := PK d l in let (pr, kr) := PK d r in
+      (pl ++ kl ++ pr, kr ++ [rop2 o d])
+  | Paren e => PK (S d) e
+  end.
+
+Lemma PK_postfix e : forall d, fst (PK d e) ++ snd (PK d e) = postfix d e.
+Proof.
+  induction e as [v|e IH|e IH|o l IHl r IHr|e IH]; intros d; cbn [PK postfix].
+  - reflexivity.
+  - apply IH.
+  - specialize (IH d). destruct (PK d e) as [p k]. cbn in *. rewrite app_assoc, IH. reflexivity.
+  - specialize (IHl d). specialize (IHr d). destruct (PK d l) as [pl kl], (PK d r) as [pr kr]. cbn in *.
+    rewrite <- IHl, <- IHr. repeat rewrite <- app_assoc. reflexivity.
+  - apply IH.
+Qed.
+
+Definition weight (t : rtok) : nat := if is_rnum t then 0 else if is_rop1 t then 1 else 2.
+Fixpoint weights (ts : list rtok) : nat :=
+  match ts with [] => 0 | t :: r => weight t + weights r end.
+Lemma weights_app a b : weights (a ++ b) = weights a + weights b.
+Proof. induction a as [|x a IH]; cbn [app weights]; [reflexivity|]. rewrite IH. lia. Qed.
+
+Lemma order_loop_app a : forall b out stk n,
+  order_loop (a ++ b) out stk n =
+  let '(out', stk', n') := order_loop a out stk n in order_loop b out' stk' n'.
+Proof.
+  induction a as [|t a IH]; intros b out stk n; cbn [app order_loop]; [reflexivity|].
+  destruct (is_rnum t); [apply IH|].
+  destruct (if is_rop1 t then (out, stk) else pop_while (prio_of t) out stk) as [o' s'].
+  apply IH.
+Qed.
+
+Lemma pop_while_split p A : forall out B,
+  Forall (fun t => (p <= prio_of t)%Z) A -> Forall (fun t => (prio_of t < p)%Z) B ->
+  pop_while p out (A ++ B) = (out ++ A, B).
+Proof.
+  induction A as [|a A IH]; intros out B HA HB; cbn [app pop_while].
+  - rewrite app_nil_r. destruct B as [|b B]; [reflexivity|].
+    cbn [pop_while]. inversion HB; subst. destruct (Z.leb_spec p (prio_of b)); [lia|reflexivity].
+  - inversion HA; subst. destruct (Z.leb_spec p (prio_of a)); [|lia].
+    rewrite IH by assumption. rewrite <- app_assoc. reflexivity.
+Qed.
+
+Lemma baseN_le2 o : baseN o <= 2. Proof. destruct o; cbn; lia. Qed.
+
+(* the operator-ordering lemma *)
+Lemma order_main e : forall d L out stk n,
+  L <= 3 -> wfL L e -> Forall (fun t => (prio_of t < prioZ d L)%Z) stk ->
+  order_loop (flat d e) out stk n = (out ++ fst (PK d e), snd (PK d e) ++ stk, n + weights (flat d e))
+  /\ Forall (fun t => (prioZ d (Nat.min L 2) <= prio_of t)%Z) (snd (PK d e)).
+Proof.
+  induction e as [v|e IH|e IH|o l IHl r IHr|e IH]; intros d L out stk n HL3 Hwf Hstk; cbn [flat PK wfL] in *.
+  - cbn [order_loop is_rnum weights weight fst snd app]. split; [f_equal; lia|constructor].
+  - (* Pos *)
+    destruct (IH d 3 out stk n (le_n 3) Hwf) as [Hr Hk].
+    { eapply Forall_impl; [|exact Hstk]. unfold prioZ. intros a Ha; cbn beta in *; lia. }
+    split; [exact Hr|]. eapply Forall_impl; [|exact Hk]. unfold prioZ. intros a Ha; cbn beta in *; lia.
+  - (* Neg *)
+    cbn [order_loop is_rnum is_rop1 rneg].
+    destruct (IH d 3 out (rneg d :: stk) (n + 1) (le_n 3) Hwf) as [Hr Hk].
+    { constructor; [cbn [prio_of rneg]; unfold prioZ; lia|].
+      eapply Forall_impl; [|exact Hstk]. unfold prioZ. intros a Ha; cbn beta in *; lia. }
+    unfold rneg in *. rewrite Hr. destruct (PK d e) as [p k]. cbn [fst snd] in *. split.
+    + rewrite <- app_assoc. cbn [weights weight is_rnum is_rop1]. f_equal. lia.
+    + apply Forall_app; split.
+      * eapply Forall_impl; [|exact Hk]. unfold prioZ. intros a Ha; cbn beta in *; lia.
+      * constructor; [cbn [prio_of]; unfold prioZ; lia|constructor].
+  - (* Bin *)
+    destruct Hwf as (HL & Hl & Hr).
+    pose proof (baseN_le2 o) as Hb.
+    rewrite order_loop_app.
+    destruct (IHl d (baseN o) out stk n ltac:(lia) Hl) as [Rl Kl].
+    { eapply Forall_impl; [|exact Hstk]. unfold prioZ. intros a Ha; cbn beta in *; lia. }
+    rewrite Rl. cbn [order_loop is_rnum is_rop1 rop2 prio_of].
+    destruct (PK d l) as [pl kl]. cbn [fst snd] in *.
+    rewrite pop_while_split.
+    2:{ eapply Forall_impl; [|exact Kl]. unfold prioZ. intros a Ha; cbn beta in *; lia. }
+    2:{ eapply Forall_impl; [|exact Hstk]. unfold prioZ. intros a Ha; cbn beta in *; lia. }
+    destruct (IHr d (S (baseN o)) ((out ++ pl) ++ kl) (rop2 o d :: stk) (n + weights (flat d l) + 2) ltac:(lia) Hr) as [Rr Kr].
+    { constructor; [cbn [prio_of rop2]; unfold prioZ; lia|].
+      eapply Forall_impl; [|exact Hstk]. unfold prioZ. intros a Ha; cbn beta in *; lia. }
+    unfold rop2 in *. rewrite Rr. destruct (PK d r) as [pr kr]. cbn [fst snd] in *. split.
+    + repeat rewrite <- app_assoc. rewrite weights_app. cbn [weights weight is_rnum is_rop1].
+      f_equal. lia.
+    + apply Forall_app; split.
+      * eapply Forall_impl; [|exact Kr]. unfold prioZ. intros a Ha; cbn beta in *; lia.
+      * constructor; [cbn [prio_of]; unfold prioZ; lia|constructor].
+  - (* Paren *)
+    destruct (IH (S d) 0 out stk n ltac:(lia) Hwf) as [R K].
+    { eapply Forall_impl; [|exact Hstk]. unfold prioZ. intros a Ha; cbn beta in *; lia. }
+    split; [exact R|]. eapply Forall_impl; [|exact K]. unfold prioZ. intros a Ha; cbn beta in *; lia.
+Qed.
+
+(* numbers, unary and binary operators of a token list *)
+Definition count (p : rtok -> bool) (ts : list rtok) : nat := length (filter p ts).
+Definition is_rop2 (t : rtok) : bool := match t with ROp2 _ _ => true | _ => false end.
+Definition is_rnull (t : rtok) : bool := match t with RNull => true | _ => false end.
+
+Lemma count_app p a b : count p (a ++ b) = count p a + count p b.
+Proof. unfold count. rewrite filter_app, app_length. reflexivity. Qed.
+
+Lemma flat_counts e : forall d,
+  count is_rnum (flat d e) = S (count is_rop2 (flat d e)) /\ count is_rnull (flat d e) = 0.
+Proof.
+  induction e as [v|e IH|e IH|o l IHl r IHr|e IH]; intros d; cbn [flat].
+  - split; reflexivity.
+  - apply IH.
+  - destruct (IH d) as [A B]. unfold count in *. cbn. split; assumption.
+  - destruct (IHl d) as [A B], (IHr d) as [C D]. rewrite !count_app.
+    unfold count in *. cbn [filter is_rnum is_rop2 is_rnull rop2 length]. split; lia.
+  - apply IH.
+Qed.
+
+Lemma weights_eq ts :
+  weights ts = count is_rop1 ts + 2 * count is_rop2 ts + 2 * count is_rnull ts.
+Proof.
+  induction ts as [|t ts IH]; [reflexivity|].
+  unfold count in *. cbn [weights filter]. rewrite IH.
+  destruct t; cbn; lia.
+Qed.
+
+Lemma length_counts ts :
+  length ts = count is_rnum ts + count is_rop1 ts + count is_rop2 ts + count is_rnull ts.
+Proof.
+  induction ts as [|t ts IH]; [reflexivity|].
+  unfold count in *. cbn [length filter]. rewrite IH. destruct t; cbn; lia.
+Qed.
+
+Lemma order_loop_length ts : forall out stk n out' stk' n',
+  order_loop ts out stk n = (out', stk', n') ->
+  length out' + length stk' = length out + length stk + length ts /\ n' = n + weights ts.
+Proof.
+  induction ts as [|t ts IH]; intros out stk n out' stk' n' H; cbn [order_loop] in H.
+  - inversion H; subst. cbn. lia.
+  - cbn [weights length]. unfold weight.
+    destruct (is_rnum t).
+    + apply IH in H. rewrite app_length in H. cbn in H. lia.
+    + destruct (is_rop1 t).
+      * apply IH in H. cbn in H. lia.
+      * destruct (pop_while (prio_of t) out stk) as [o1 s1] eqn:Ep.
+        apply IH in H. cbn [length] in H.
+        assert (length o1 + length s1 = length out + length stk).
+        { clear -Ep. revert out o1 s1 Ep. induction stk as [|x stk IHs]; intros out o1 s1 Ep; cbn [pop_while] in Ep.
+          - inversion Ep; subst. reflexivity.
+          - destruct (prio_of t <=? prio_of x)%Z.
+            + apply IHs in Ep. rewrite app_length in Ep. cbn in *. lia.
+            + inversion Ep; subst. reflexivity. }
+        lia.
+Qed.
+
+(* order_tokens succeeds exactly when #numbers = #binary + #null + 1 *)
+Lemma order_tokens_parity ts :
+  order_tokens ts <> None <-> count is_rnum ts = count is_rop2 ts + count is_rnull ts + 1.
+Proof.
+  unfold order_tokens.
+  destruct (order_loop ts [] [] 0) as [[out stk] n] eqn:E.
+  apply order_loop_length in E. destruct E as [E1 E2]. cbn in E1, E2.
+  pose proof (weights_eq ts). pose proof (length_counts ts).
+  destruct (Nat.eqb_spec (n + 1) (length out + length stk)); split; intros; try congruence; try lia.
+Qed.
+
+Theorem order_is_postfix e : wfL 0 e -> order_tokens (flat 0 e) = Some (postfix 0 e).
+Proof.
+  intros H. unfold order_tokens.
+  destruct (order_main e 0 0 [] [] 0 ltac:(lia) H) as [R _]; [constructor|].
+  rewrite R. cbn [app]. rewrite app_nil_r.
+  pose proof (PK_postfix e 0) as HP.
+  assert (Hlen : length (fst (PK 0 e)) + length (snd (PK 0 e)) = length (flat 0 e)).
+  { pose proof (order_loop_length _ _ _ _ _ _ _ R) as [L _]. rewrite app_nil_r in L. cbn in L. lia. }
+  destruct (flat_counts e 0) as [C1 C2].
+  pose proof (weights_eq (flat 0 e)). pose proof (length_counts (flat 0 e)).
+  destruct (Nat.eqb_spec (0 + weights (flat 0 e) + 1) (length (fst (PK 0 e)) + length (snd (PK 0 e)))).
+  - rewrite HP. reflexivity.
+  - exfalso. lia.
+Qed.
+
+(* ================================================================== Part 2 *)
+Section Rpn.
+  Variable NS : NumStruct.
+
+  Definition opG (o : op2) : num NS -> num NS -> option (num NS) :=
+    match o with
+    | Add => fun a b => Some (nadd NS a b)
+    | Sub => fun a b => Some (nsub NS a b)
+    | Mul => fun a b => Some (nmul NS a b)
+    | Div => ndiv NS
+    | IDiv => nidiv NS
+    end.
+
+  Fixpoint evalG (e : expr) : option (num NS) :=
+    match e with
+    | Num d => Some (of_dec NS d)
+    | Pos e => evalG e
+    | Paren e => evalG e
+    | Neg e => match evalG e with Some a => Some (nneg NS a) | None => None end
+    | Bin o l r =>
+        match evalG l, evalG r with
+        | Some a, Some b => opG o a b
+        | _, _ => None
+        end
+    end.
+
+  Lemma ops2_op_char o : ops2 NS (op_char o) = Some (opG o).
+  Proof. destruct o; reflexivity. Qed.
+
+  (* the stack machine on the postfix code of a tree computes the tree's value *)
+  Theorem rpn_eval e : forall d rest stack,
+    eval_loop NS (postfix d e ++ rest) stack =
+    match evalG e with
+    | Some v => eval_loop NS rest (v :: stack)
+    | None => zero_div
+    end.
+  Proof.
+    induction e as [v|e IH|e IH|o l IHl r IHr|e IH]; intros d rest stack; cbn [postfix evalG].
+    - reflexivity.
+    - apply IH.
+    - rewrite <- app_assoc, IH. destruct (evalG e); reflexivity.
+    - rewrite <- !app_assoc, IHl. destruct (evalG l) as [a|]; [|reflexivity].
+      rewrite IHr. destruct (evalG r) as [b|]; [|reflexivity].
+      cbn [app eval_loop rop2]. rewrite ops2_op_char. destruct (opG o a b); reflexivity.
+    - apply IH.
+  Qed.
+End Rpn.
+
+(* ================================================================== Part 3 *)
+(* documented grammar as a predicate on trees: level 0 additive, 1 multiplicative, 2 prefix/primary *)
+Definition lvl (o : op2) : nat := if is_add o then 0 else 1.
+
+Fixpoint wfD (L : nat) (e : expr) : Prop :=
+  match e with
+  | Num _ => True
+  | Pos e => wfD 2 e
+  | Neg e => wfD 2 e
+  | Paren e => wfD 0 e
+  | Bin o l r => L <= lvl o /\ wfD (lvl o) l /\ wfD (S (lvl o)) r
+  end.
+
+Fixpoint toks (e : expr) : list tok :=
+  match e with
+  | Num d => [TNum d]
+  | Pos e => TOp Add :: toks e
+  | Neg e => TOp Sub :: toks e
+  | Bin o l r => toks l ++ TOp o :: toks r
+  | Paren e => TLP :: toks e ++ [TRP]
+  end.
+
+Lemma wfD_weaken e : forall L L', L' <= L -> wfD L e -> wfD L' e.
+Proof. destruct e; cbn; intros; try assumption. destruct H0 as (A & B & C). repeat split; try assumption; lia. Qed.
+
+Lemma Parses_wfD L ts e : Parses L ts e -> L <= 2 /\ wfD L e /\ toks e = ts.
+Proof.
+  induction 1 as [d|ts e H IH|ts e H IH|ts e H IH|o tl tr l r Ho Hl IHl Hr IHr|ts e H IH
+                 |o tl tr l r Ho Hl IHl Hr IHr|ts e H IH]; cbn [wfD toks].
+  - repeat split; lia.
+  - destruct IH as (_ & A & B). subst. repeat split; [lia|exact A].
+  - destruct IH as (_ & A & B). subst. repeat split; [lia|exact A].
+  - destruct IH as (_ & A & B). subst. repeat split; [lia|exact A].
+  - destruct IHl as (_ & A & B), IHr as (_ & C & D). subst.
+    assert (lvl o = 1) as -> by (unfold lvl; destruct o; cbn in *; congruence).
+    repeat split; try assumption; lia.
+  - destruct IH as (_ & A & B). subst. repeat split; [lia|]. eapply wfD_weaken; [|exact A]. lia.
+  - destruct IHl as (_ & A & B), IHr as (_ & C & D). subst.
+    assert (lvl o = 0) as -> by (unfold lvl; destruct o; cbn in *; congruence).
+    repeat split; try assumption; lia.
+  - destruct IH as (_ & A & B). subst. repeat split; [lia|]. eapply wfD_weaken; [|exact A]. lia.
+Qed.
+
+Lemma Parses_down L ts e : Parses 2 ts e -> L <= 2 -> Parses L ts e.
+Proof.
+  intros H HL. destruct L as [|[|[|L]]]; try lia.
+  - apply P_up0, P_up1, H.
+  - apply P_up1, H.
+  - exact H.
+Qed.
+
+Lemma wfD_Parses e : forall L, L <= 2 -> wfD L e -> Parses L (toks e) e.
+Proof.
+  induction e as [v|e IH|e IH|o l IHl r IHr|e IH]; intros L HL Hwf; cbn [wfD toks] in *.
+  - apply Parses_down; [constructor|exact HL].
+  - apply Parses_down; [|exact HL]. constructor. apply IH; [lia|exact Hwf].
+  - apply Parses_down; [|exact HL]. constructor. apply IH; [lia|exact Hwf].
+  - destruct Hwf as (A & B & C). unfold lvl in *. destruct (is_add o) eqn:Eo.
+    + assert (L = 0) by lia. subst L. apply P_add; [exact Eo|apply IHl; [lia|exact B]|apply IHr; [lia|exact C]].
+    + assert (Parses 1 (toks l ++ TOp o :: toks r) (Bin o l r)).
+      { apply P_mul; [unfold is_mul; rewrite Eo; reflexivity|apply IHl; [lia|exact B]|apply IHr; [lia|exact C]]. }
+      destruct L as [|[|L]]; [apply P_up0; assumption|assumption|lia].
+  - apply Parses_down; [|exact HL]. constructor. apply IH; [lia|exact Hwf].
+Qed.
+
+(* the tree the priorities denote: a '/' or '\' directly after a product binds to the
+   product's last factor only:  (x * y) / z  becomes  x * (y / z) *)
+Fixpoint regroup (e : expr) : expr :=
+  match e with
+  | Num d => Num d
+  | Pos e => Pos (regroup e)
+  | Neg e => Neg (regroup e)
+  | Paren e => Paren (regroup e)
+  | Bin o l r =>
+      match o with
+      | Div | IDiv =>
+          match regroup l with
+          | Bin Mul x y => Bin Mul x (Bin o y (regroup r))
+          | l' => Bin o l' (regroup r)
+          end
+      | _ => Bin o (regroup l) (regroup r)
+      end
+  end.
+
+Lemma flat_regroup e : forall d, flat d (regroup e) = flat d e.
+Proof.
+  induction e as [v|e IH|e IH|o l IHl r IHr|e IH]; intros d; cbn [regroup flat].
+  - reflexivity.
+  - apply IH.
+  - rewrite IH. reflexivity.
+  - assert (G : flat d (Bin o (regroup l) (regroup r)) = flat d l ++ rop2 o d :: flat d r).
+    { cbn [flat]. rewrite IHl, IHr. reflexivity. }
+    destruct o; try exact G.
+    + specialize (IHl d). destruct (regroup l) as [v|x|x|o' x y|x]; try exact G.
+      destruct o'; try exact G.
+      cbn [flat] in *. rewrite IHr, <- IHl, <- app_assoc. reflexivity.
+    + specialize (IHl d). destruct (regroup l) as [v|x|x|o' x y|x]; try exact G.
+      destruct o'; try exact G.
+      cbn [flat] in *. rewrite IHr, <- IHl, <- app_assoc. reflexivity.
+  - apply IH.
+Qed.
+
+Definition mlev (L : nat) : nat := match L with 0 => 0 | 1 => 1 | _ => 3 end.
+
+Lemma wfL_not_mul l : wfL 1 l -> (forall x y, l <> Bin Mul x y) -> wfL 2 l.
+Proof.
+  destruct l as [v|x|x|o x y|x]; cbn; intros H N; try assumption.
+  destruct H as (A & B & C). destruct o; cbn in *; try lia.
+  - exfalso. eapply N. reflexivity.
+  - repeat split; try assumption; lia.
+  - repeat split; try assumption; lia.
+Qed.
+
+Lemma wf_regroup e : forall L, wfD L e -> wfL (mlev L) (regroup e).
+Proof.
+  induction e as [v|e IH|e IH|o l IHl r IHr|e IH]; intros L Hwf; cbn [regroup wfD wfL] in *.
+  - exact I.
+  - apply (IH 2 Hwf).
+  - apply (IH 2 Hwf).
+  - destruct Hwf as (A & B & C).
+    assert (HmL : mlev L <= lvl o) by (destruct L as [|[|L]]; cbn; unfold lvl in *; destruct (is_add o); lia).
+    destruct o; cbn [lvl is_add] in *.
+    + cbn [wfL baseN]. repeat split; [lia|apply (IHl 0 B)|apply (IHr 1 C)].
+    + cbn [wfL baseN]. repeat split; [lia|apply (IHl 0 B)|apply (IHr 1 C)].
+    + cbn [wfL baseN]. repeat split; [lia|apply (IHl 1 B)|]. eapply wfL_weaken; [|apply (IHr 2 C)]. cbn; lia.
+    + pose proof (IHl 1 B) as Hl. pose proof (IHr 2 C) as Hr. cbn [mlev] in Hl, Hr.
+      assert (G : (forall x y, regroup l <> Bin Mul x y) -> wfL (mlev L) (Bin Div (regroup l) (regroup r))).
+      { intros N. cbn [wfL baseN]. repeat split; [lia|apply wfL_not_mul; assumption|exact Hr]. }
+      destruct (regroup l) as [v|x|x|o' x y|x]; try (apply G; congruence).
+      destruct o'; try (apply G; congruence).
+      cbn [wfL baseN] in *. destruct Hl as (H1 & H2 & H3). repeat split; try assumption; lia.
+    + pose proof (IHl 1 B) as Hl. pose proof (IHr 2 C) as Hr. cbn [mlev] in Hl, Hr.
+      assert (G : (forall x y, regroup l <> Bin Mul x y) -> wfL (mlev L) (Bin IDiv (regroup l) (regroup r))).
+      { intros N. cbn [wfL baseN]. repeat split; [lia|apply wfL_not_mul; assumption|exact Hr]. }
+      destruct (regroup l) as [v|x|x|o' x y|x]; try (apply G; congruence).
+      destruct o'; try (apply G; congruence).
+      cbn [wfL baseN] in *. destruct Hl as (H1 & H2 & H3). repeat split; try assumption; lia.
+  - apply (IH 0 Hwf).
+Qed.
+
+(* value *)
+Lemma Qc_is_zero_spec b : Qc_is_zero b = true <-> b = 0%Qc.
+Proof.
+  unfold Qc_is_zero. rewrite Qeq_bool_iff. split.
+  - intros H. apply Qc_is_canon. exact H.
+  - intros ->. reflexivity.
+Qed.
+
+Lemma apply_op_opG o a b : apply_op o a b = opG QcNum o a b.
+Proof.
+  destruct o; cbn; try reflexivity.
+  - unfold Qc_div. destruct (Qc_eq_dec b 0) as [E|E].
+    + apply Qc_is_zero_spec in E. rewrite E. reflexivity.
+    + destruct (Qc_is_zero b) eqn:Z; [apply Qc_is_zero_spec in Z; contradiction|reflexivity].
+  - unfold Qc_idiv. destruct (Qc_eq_dec b 0) as [E|E].
+    + apply Qc_is_zero_spec in E. rewrite E. reflexivity.
+    + destruct (Qc_is_zero b) eqn:Z; [apply Qc_is_zero_spec in Z; contradiction|reflexivity].
+Qed.
+
+Lemma eval_evalG e : eval e = evalG QcNum e.
+Proof.
+  induction e as [v|e IH|e IH|o l IHl r IHr|e IH]; cbn [eval evalG].
+  - reflexivity.
+  - exact IH.
+  - rewrite IH. reflexivity.
+  - rewrite IHl, IHr. destruct (evalG QcNum l), (evalG QcNum r); try reflexivity. apply apply_op_opG.
+  - exact IH.
+Qed.
+
+(* a covered chain whose last operator is '\' does not start with a product after regrouping *)
+Lemma regroup_idiv_chain l :
+  covered l -> (forall o a b, l = Bin o a b -> is_mul o = true -> o = IDiv) ->
+  forall x y, regroup l <> Bin Mul x y.
+Proof.
+  induction l as [v|e IH|e IH|o a IHa b IHb|e IH]; intros Hc Htop x y; cbn [regroup]; try congruence.
+  destruct Hc as (Ca & Cb & Cc).
+  destruct o; try congruence.
+  - specialize (Htop Mul a b eq_refl eq_refl). discriminate.
+  - specialize (Htop Div a b eq_refl eq_refl). discriminate.
+  - assert (N : forall x y, regroup a <> Bin Mul x y).
+    { apply IHa; [exact Ca|]. intros o' a' b' -> Hm. specialize (Cc eq_refl Hm).
+      destruct o'; cbn in *; congruence. }
+    destruct (regroup a) as [v|e|e|o' a' b'|e]; try congruence.
+    destruct o'; try congruence; exfalso; eapply N; reflexivity.
+Qed.
+
+Lemma rotate_div (ox oy oz : option Qc) :
+  match ox, (match oy, oz with Some b, Some c => apply_op Div b c | _, _ => None end) with
+  | Some a, Some q => apply_op Mul a q
+  | _, _ => None
+  end =
+  match (match ox, oy with Some a, Some b => apply_op Mul a b | _, _ => None end), oz with
+  | Some p, Some c => apply_op Div p c
+  | _, _ => None
+  end.
+Proof.
+  destruct ox as [a|], oy as [b|], oz as [c|]; cbn; try reflexivity.
+  destruct (Qc_eq_dec c 0); [reflexivity|]. f_equal. unfold Qcdiv. ring.
+Qed.
+
+Theorem regroup_value e : covered e -> eval (regroup e) = eval e.
+Proof.
+  induction e as [v|e IH|e IH|o l IHl r IHr|e IH]; intros Hc; cbn [regroup eval covered] in *.
+  - reflexivity.
+  - apply IH, Hc.
+  - rewrite (IH Hc). reflexivity.
+  - destruct Hc as (Cl & Cr & Cc). specialize (IHl Cl). specialize (IHr Cr).
+    assert (G : eval (Bin o (regroup l) (regroup r)) = match eval l, eval r with Some a, Some b => apply_op o a b | _, _ => None end).
+    { cbn [eval]. rewrite IHl, IHr. reflexivity. }
+    destruct o; try exact G.
+    + (* Div *)
+      destruct (regroup l) as [v|x|x|o' x y|x] eqn:El; try exact G.
+      destruct o'; try exact G.
+      cbn [eval] in *. rewrite IHr, <- IHl. apply rotate_div.
+    + (* IDiv: no rotation on covered chains *)
+      assert (N : forall x y, regroup l <> Bin Mul x y).
+      { apply regroup_idiv_chain; [exact Cl|]. intros o' a b -> Hm. specialize (Cc eq_refl Hm).
+        destruct o'; cbn in *; congruence. }
+      destruct (regroup l) as [v|x|x|o' x y|x] eqn:El; try exact G.
+      destruct o'; try exact G. exfalso. eapply N. reflexivity.
+  - apply IH, Hc.
+Qed.
+
+(* ================================================================== Part 4 *)
+(* the branch bodies of parse() on spec tokens *)
+Definition tstep (st : pstate) (t : tok) : res pstate :=
+  match t with
+  | TNum d =>
+      if negb (has (expected st) PS_Primary) then math_err
+      else Ok (mkP (priority st) EXP_after_operand (ptokens st ++ [RNum d]))
+  | TOp o => pstep st (POp (op_char o))
+  | TLP => pstep st PLParen
+  | TRP => pstep st PRParen
+  end.
+
+Fixpoint trun (st : pstate) (ts : list tok) : res pstate :=
+  match ts with
+  | [] => Ok st
+  | t :: ts' => let* st' := tstep st t in trun st' ts'
+  end.
+
+Lemma trun_app a : forall st b, trun st (a ++ b) = let* st' := trun st a in trun st' b.
+Proof.
+  induction a as [|t a IH]; intros st b; cbn [app trun bind]; [reflexivity|].
+  destruct (tstep st t); cbn [bind]; try reflexivity. apply IH.
+Qed.
+
+Definition operand_state (ex : N) : Prop := ex = EXP_operand \/ ex = EXP_after_lparen.
+
+Lemma trun_toks e : forall d ex acc,
+  operand_state ex ->
+  trun (mkP (10 * Z.of_nat d)%Z ex acc) (toks e) =
+  Ok (mkP (10 * Z.of_nat d)%Z EXP_after_operand (acc ++ flat d e)).
+Proof.
+  induction e as [v|e IH|e IH|o l IHl r IHr|e IH]; intros d ex acc Hex; cbn [toks flat].
+  - cbn [trun tstep expected priority ptokens bind]. destruct Hex as [-> | ->]; reflexivity.
+  - cbn [trun tstep bind]. unfold pstep. cbn [expected priority ptokens op_char].
+    replace (is_sign c_plus && has ex PS_Sign) with true by (destruct Hex as [-> | ->]; reflexivity).
+    cbn [is_negative_sign]. replace (c_plus =? c_dash)%N with false by reflexivity.
+    cbn [bind]. apply IH. left; reflexivity.
+  - cbn [trun tstep bind]. unfold pstep. cbn [expected priority ptokens op_char].
+    replace (is_sign c_dash && has ex PS_Sign) with true by (destruct Hex as [-> | ->]; reflexivity).
+    replace (is_negative_sign c_dash) with true by reflexivity.
+    cbn [bind]. rewrite mk_op1_rneg. rewrite IH by (left; reflexivity).
+    rewrite <- app_assoc. reflexivity.
+  - rewrite trun_app. rewrite IHl by exact Hex. cbn [bind trun tstep]. unfold pstep.
+    cbn [expected priority ptokens].
+    replace (is_sign (op_char o) && has EXP_after_operand PS_Sign) with false
+      by (destruct o; reflexivity).
+    replace (negb (has EXP_after_operand PS_Operator)) with false by reflexivity.
+    cbn [bind]. rewrite mk_op2_rop2. rewrite IHr by (left; reflexivity).
+    rewrite <- !app_assoc. reflexivity.
+  - cbn [trun tstep bind]. unfold pstep at 1. cbn [expected priority ptokens].
+    replace (negb (has ex PS_LParen)) with false by (destruct Hex as [-> | ->]; reflexivity).
+    cbn [bind]. replace (10 * Z.of_nat d + 10)%Z with (10 * Z.of_nat (S d))%Z by lia.
+    rewrite trun_app. rewrite IH by (right; reflexivity). cbn [bind trun tstep]. unfold pstep.
+    cbn [expected priority ptokens].
+    replace (10 * Z.of_nat (S d) - 10)%Z with (10 * Z.of_nat d)%Z by lia.
+    destruct (Z.ltb_spec (10 * Z.of_nat d) 0); [lia|].
+    replace (has EXP_after_operand PS_Nullary) with false by reflexivity.
+    replace (negb (has EXP_after_operand PS_RParen)) with false by reflexivity.
+    reflexivity.
+Qed.
